@@ -55,6 +55,7 @@ func infractionPairing(c *Ctx) {
 		}
 	}
 	c.KeyShapeIs("pt.InfractionScheduledTimeToConsumerIdsKey", "Const(InfractionScheduledTimeToConsumerIdsKeyName)·Time(param:updateTime)", "the schedule is scanned in time order and the scan stops at the first future entry")
+	c.RunsEveryBlock("provider.AppModule.BeginBlock", "pk.Keeper.BeginBlockUpdateInfractionParameters", "applier-runs-every-block")
 	// "equal request" means equal in every parameter: the helpers compare all fields
 	for _, h := range []string{"pk.compareInfractionParameters", "pk.compareSlashJailParameters"} {
 		if f := c.Fn(h); f != nil {
